@@ -174,3 +174,109 @@ def family_nested_fault(tier, seed, n=None):
                probe("o3"), {"op": "call", "call": mcall("o1")}]
         out.append({"id": "F16/nested/%s/%s/%d" % (blkn, "_".join(map(str, path)), t), "world": world, "ops": ops, "tags": []})
     return out
+
+
+def family_softprio_after_fail(tier, seed, n=None):
+    """soft-constraint priorities are per-call state: after a call that failed (or was aborted by a user exception) the very next
+    call - with an inline soft constraint that conflicts with class-level ones, or with another set of enabled blocks - honours
+    exactly the priorities of a fresh session (inline over class level, later over earlier)"""
+    out = []
+    n = n or (6 if tier == "quick" else 36)
+    for t in range(n):
+        rnd = random.Random(1680 + t + (seed if t >= n // 2 else 0) * 1000)
+        v1, v2, v3 = rnd.sample(range(4), 3)
+        fields = [fld("a", 2, False), fld("b", 2, False), fld("k", 2, False, rand=False, init=1)]
+        blocks = [{"name": "s1", "dynamic": False, "body": [{"k": "soft", "e": B("eq", F("a"), lit(v1))}, {"k": "soft", "e": B("eq", F("a"), lit(v2))}]},
+                  {"name": "s2", "dynamic": False, "body": [{"k": "soft", "e": B("eq", F("b"), lit(v1))}, {"k": "soft", "e": B("ne", F("b"), F("a"))}]},
+                  {"name": "h1", "dynamic": False, "body": [E(B("le", F("a"), lit(3)))]}]
+        world = {"classes": {"A": {"base": "", "cb": True, "fields": fields, "blocks": blocks}}, "population": [{"id": "o1", "cls": "A"}]}
+        unsat = wcall([E(B("lt", F("a"), F("a")))], "o1")
+        if t % 3 == 2:
+            unsat["flags"] = {"solve_fail_debug": 1}
+        failing = {"op": "call", "call": unsat} if t % 2 == 0 else {"op": "call", "call": mcall("o1"), "fault": {"ph": "pre", "o": "o1"}}
+        inl_a = wcall([{"k": "soft", "e": B("eq", F("a"), lit(v3))}], "o1")
+        inl_b = wcall([{"k": "soft", "e": B("eq", F("b"), lit(v2))}, {"k": "soft", "e": B("eq", F("b"), lit(v3))}], "o1")
+        ops = [{"op": "construct", "o": "o1"}, {"op": "call", "call": mcall("o1")}, failing, {"op": "call", "call": inl_a},
+               dict(failing), dict(failing), {"op": "call", "call": inl_b},
+               dict(failing), {"op": "cmode", "o": "o1", "b": "s1", "en": False}, {"op": "call", "call": inl_a},
+               {"op": "cmode", "o": "o1", "b": "s1", "en": True}, dict(failing), {"op": "call", "call": mcall("o1")},
+               {"op": "probe", "call": wcall([], "o1"), "paths": ["o1.a", "o1.b"]}]
+        out.append({"id": "F16/softprio/%d" % t, "world": world, "ops": ops, "tags": []})
+    return out
+
+
+def family_randsz_after_fail(tier, seed, n=None):
+    """random-size lists under an aggregate (sum / product / membership / unique): a call that is unsatisfiable for EVERY size
+    (the inline block pins the elements against the aggregate) fails after the library has already solved a size; the following
+    calls must relate the aggregate to exactly the list they return, whatever size the failed call had picked"""
+    out = []
+    n = n or (6 if tier == "quick" else 48)
+    for t in range(n):
+        rnd = random.Random(1690 + t + (seed if t >= n // 2 else 0) * 1000)
+        kind = ["sum", "prod", "member", "sum_le"][t % 4]
+        fields = [fld("a", 2, False), fld("k", 2, False, rand=False, init=1),
+                  {"name": "l", "kind": "list", "w": 2, "signed": False, "rand": True, "init": [], "randsz": True, "cap": 5}]
+        size_c = E({"k": "in", "e": {"k": "size", "l": "l"}, "items": [{"k": "r", "lo": lit(1), "hi": lit(3)}], "neg": False})
+        each = lambda body: {"k": "foreach", "l": "l", "v": "e", "it": True, "idx": False, "body": body}
+        IT = {"k": "it", "v": "e", "p": ""}
+        if kind == "sum":
+            body = [size_c, E(B("eq", {"k": "sum", "l": "l"}, F("a")))]
+            unsat = [E(B("eq", F("a"), lit(3))), each([E(B("eq", IT, lit(0)))])]
+        elif kind == "sum_le":
+            body = [size_c, E(B("ge", {"k": "sum", "l": "l"}, F("a"))), E(B("ge", F("a"), lit(2)))]
+            unsat = [each([E(B("eq", IT, lit(0)))])]
+        elif kind == "prod":
+            body = [size_c, each([E(B("gt", IT, lit(0)))]), E(B("eq", {"k": "prod", "l": "l"}, F("a")))]
+            unsat = [E(B("eq", F("a"), lit(3))), each([E(B("le", IT, lit(2)))])]          # 3 is no product of 1s and 2s
+        else:
+            body = [size_c, E({"k": "in", "e": F("a"), "items": [{"k": "l", "p": "l"}], "neg": False})]
+            unsat = [E(B("eq", F("a"), lit(3))), each([E(B("le", IT, lit(2)))])]          # no element is 3
+        world = {"classes": {"A": {"base": "", "cb": True, "fields": fields, "blocks": [{"name": "c1", "dynamic": False, "body": body}]}},
+                 "population": [{"id": "o1", "cls": "A"}]}
+        bad = wcall(unsat, "o1")
+        if t % 3 == 1:
+            bad["flags"] = {"solve_fail_debug": 1}
+        pin = lambda s_: wcall([E(B("eq", {"k": "size", "l": "l"}, lit(s_)))], "o1")
+        ops = [{"op": "construct", "o": "o1"}, {"op": "call", "call": mcall("o1")}]
+        for rep in range(2 if tier == "quick" else 4):
+            ops += [{"op": "call", "call": bad}, {"op": "call", "call": mcall("o1")}, {"op": "call", "call": pin(1 + (rep + t) % 3)},
+                    {"op": "call", "call": bad}, {"op": "call", "call": pin(3 - (rep + t) % 3)}]
+        ops.append({"op": "call", "call": mcall("o1")})
+        out.append({"id": "F16/rsfail/%s/%d" % (kind, t), "world": world, "ops": ops, "tags": []})
+    return out
+
+
+def family_bigcore(tier, seed, n=None):
+    """unsatisfiable calls whose smallest conflicting subset has 3..6 constraints (a cycle a <= b <= ... < a: any proper subset is
+    satisfiable), with and without solve_fail_debug - the diagnostics search combines only a few constraints at a time; whatever
+    it finds, the call ends with SolveFailure and the following calls behave as in a fresh session"""
+    out = []
+    names = ["a", "b", "c", "d", "e", "f"]
+    for k in (3, 4, 5, 6):
+        for dbg in (0, 1, 2):
+            for where in ("inline", "block"):
+                if tier == "quick" and (dbg == 2 or (where == "block" and k % 2 == 0)):
+                    continue
+                fs = names[:k]
+                fields = [fld(x, 2, False) for x in fs] + [fld("k", 2, False, rand=False, init=1)]
+                chain = [E(B("le", F(fs[i]), F(fs[i + 1]))) for i in range(k - 1)]
+                close = E(B("lt", F(fs[-1]), F(fs[0])))
+                blocks = [{"name": "c1", "dynamic": False, "body": chain}]
+                if where == "block":
+                    blocks.append({"name": "cx", "dynamic": False, "body": [close]})
+                world = {"classes": {"A": {"base": "", "cb": True, "fields": fields, "blocks": blocks}}, "population": [{"id": "o1", "cls": "A"}]}
+                bad = wcall([close] if where == "inline" else [], "o1")
+                if dbg:
+                    bad["flags"] = {"solve_fail_debug": dbg}
+                ops = [{"op": "construct", "o": "o1"}]
+                if where == "block":
+                    ops += [{"op": "cmode", "o": "o1", "b": "cx", "en": False}, {"op": "call", "call": mcall("o1")}, {"op": "cmode", "o": "o1", "b": "cx", "en": True}]
+                else:
+                    ops.append({"op": "call", "call": mcall("o1")})
+                ops += [{"op": "call", "call": bad}, {"op": "call", "call": bad}]
+                if where == "block":
+                    ops.append({"op": "cmode", "o": "o1", "b": "cx", "en": False})
+                ops += [{"op": "call", "call": mcall("o1")}, {"op": "call", "call": wcall([E(B("ne", F("a"), F("k")))], "o1")},
+                        {"op": "probe", "call": wcall([], "o1"), "paths": ["o1." + x for x in fs], "mode": "around", "nsol": 4, "cap": 200}]
+                out.append({"id": "F16/bigcore/%d/%s/dbg%d" % (k, where, dbg), "world": world, "ops": ops, "tags": []})
+    return out
